@@ -120,3 +120,11 @@ Theorem C06_oracle_unwrap : forall H v, -32768 <= v - H < 32768 ->
   unwrap_to (Some H) (v mod 65536) = v.
 Proof. exact unwrap_wrap. Qed.
 Print Assumptions C06_oracle_unwrap.
+
+(* reading of the recount specification: after any history its received set
+   is the list of all arrivals and its highest is their maximum *)
+Theorem C06_spec_reading : forall J j0 jstep jout dk rate ops,
+  a_hi (a_final J jstep jout dk rate (a_init J j0) ops) = fold_left max_opt (arrivals ops) None /\
+  a_recv (a_final J jstep jout dk rate (a_init J j0) ops) = rev (arrivals ops) ++ [].
+Proof. intros. apply (spec_hi_recv J jstep jout dk rate ops (a_init J j0)). reflexivity. Qed.
+Print Assumptions C06_spec_reading.
